@@ -30,4 +30,6 @@ def run(check):
         'kinds': None, 'clear_must': 'C10.R2', 'clear_only': 'C10.R2', 'order': 'C10.R4'}))
     check.run_rule('C10.R3', lambda c: rule_kind_restrictions(c, 'C10.R3', M.merge(), M.embed(), M.mask()))
     check.run_rule('C10.R5', lambda c: rule_mask_names(c, M.mask(), {
-        'table': None, 'index': None, 'kinds': 'C10.R3', 'src': None, 'pdefault': 'C10.R5'}))
+        'table': None, 'index': 'C10.R5', 'kinds': 'C10.R3', 'src': None, 'pdefault': 'C10.R5'}))
+    from ._shared import rule_posindex
+    check.run_rule('C10.R5p', lambda c: rule_posindex(c, 'C10.R5'))
